@@ -390,6 +390,14 @@ func (f *Frame) loopModifies(l *Loop) map[string]bool {
 
 // loopEnv builds the environment in which loop clauses are translated.
 func (f *Frame) loopEnv(l *Loop, phiVals map[*ssa.Phi]Term, st *State) *Env {
+	env := f.loopEnv0(l, phiVals, st)
+	if l.pre != nil {
+		env.loopPre = f.loopEnv0(l, l.preVals, l.pre)
+	}
+	return env
+}
+
+func (f *Frame) loopEnv0(l *Loop, phiVals map[*ssa.Phi]Term, st *State) *Env {
 	var env *Env
 	if f.top && f.vc.topEnv != nil {
 		env = f.vc.topEnv.clone()
@@ -602,6 +610,7 @@ func (f *Frame) enterLoop(l *Loop, b *ssa.BasicBlock, predBlocks []*ssa.BasicBlo
 		invs = append(invs, &Clause{Kind: "invariant", Text: a.Text, Loop: l.Ordinal, Label: label})
 	}
 	l.invs = invs
+	l.pre, l.preVals = entry, initVals
 	// inv-init
 	ienv := f.loopEnv(l, initVals, entry)
 	for i, c := range invs {
